@@ -16,7 +16,7 @@ def gen_knobs(tp, fault_free_pm=250, max_steps=20000, allow_big_lat=True):
         return {'policy': tp.choice(POLICIES), 'lat': 0, 'cost': 0.0,
                 'stall_pm': 0, 'epoch': 'exact', 'time_yield': False,
                 'fault_free': True, 'max_steps': max_steps}
-    lat = tp.choice([0, 1, 2, 3, 3] if allow_big_lat else [0, 1, 2, 4])
+    lat = tp.choice([0, 1, 2, 3, 3, 5] if allow_big_lat else [0, 1, 2, 4])
     # a share of the faulty runs also pre-empts at LINE level inside
     # base/main.py, clock.py, stream.py, _oscinterface.py, responders.py
     line_mean = tp.choice([0] * 7 + [8, 30, 120])
